@@ -647,9 +647,10 @@ Lemma dec_digit_range c d : dec_digit c = Some d -> 48 <= c <= 57.
 Proof. unfold dec_digit. destruct ((48 <=? c) && (c <=? 57)) eqn:E; [lia|discriminate]. Qed.
 
 Theorem decimal_literal s ds :
-  s <> [] -> digits_of dec_digit s = Some ds -> number_value doc_char_escapes s = Ok (positional 10 ds).
+  s <> [] -> Z.of_nat (List.length s) <= 4300 -> digits_of dec_digit s = Some ds ->
+  number_value doc_char_escapes s = Ok (positional 10 ds).
 Proof.
-  intros Hs H. unfold number_value.
+  intros Hs Hlen H. unfold number_value.
   destruct s as [|c0 [|c1 r]]; [contradiction|now apply py_int_positional|].
   assert (R0 : 48 <= c0 <= 57).
   { simpl in H. destruct (dec_digit c0) eqn:E; [|discriminate]. eapply dec_digit_range; eauto. }
@@ -659,7 +660,24 @@ Proof.
   destruct (Z.eqb_spec c0 39); [lia|].
   destruct (Z.eqb_spec c1 120); [lia|]. destruct (Z.eqb_spec c1 88); [lia|].
   destruct (Z.eqb_spec c1 98); [lia|]. destruct (Z.eqb_spec c1 66); [lia|].
-  simpl orb. cbv iota. now apply py_int_positional.
+  simpl orb. cbv iota. unfold decimal_value.
+  destruct (Z.ltb_spec 4300 (Z.of_nat (List.length (c0 :: c1 :: r)))); [lia|].
+  now apply py_int_positional.
+Qed.
+
+Theorem decimal_literal_too_long s :
+  4300 < Z.of_nat (List.length s) -> (forall c, In c s -> 48 <= c <= 57) ->
+  number_value doc_char_escapes s = LibError LexLiteralTooLong.
+Proof.
+  intros Hlen Hd. unfold number_value.
+  destruct s as [|c0 [|c1 r]]; [simpl in Hlen; lia|simpl in Hlen; lia|].
+  assert (R0 : 48 <= c0 <= 57) by (apply Hd; simpl; auto).
+  assert (R1 : 48 <= c1 <= 57) by (apply Hd; simpl; auto).
+  destruct (Z.eqb_spec c0 39); [lia|].
+  destruct (Z.eqb_spec c1 120); [lia|]. destruct (Z.eqb_spec c1 88); [lia|].
+  destruct (Z.eqb_spec c1 98); [lia|]. destruct (Z.eqb_spec c1 66); [lia|].
+  simpl orb. cbv iota. unfold decimal_value.
+  destruct (Z.ltb_spec 4300 (Z.of_nat (List.length (c0 :: c1 :: r)))); [reflexivity|lia].
 Qed.
 
 Theorem hex_literal x s ds :
